@@ -391,3 +391,39 @@ package keeper
 //@   loop L1 invariant forall j int :: 0 <= j && j < len(list) ==> list[j] == rawget(ExpiredShard, itkey(j)) && itkey(j) == keyof(ExpiredShard, list[j].Height)
 //@   loop L1 invariant forall j int :: 0 <= j && j < len(list) ==> contains(list, list[j])
 //@   loop L1 decreases [C02.getall.expiredshard.term] itlen() - itpos()
+
+// ReportFaults: a fishman files or confirms fault reports against a provider; only the fault records change
+//@ func (msgServer) ReportFaults(goCtx, msg) (resp, err)
+//@   requires msg != nil
+//@   requires forall i int :: 0 <= i && i < len(msg.Faults) ==> msg.Faults[i] != nil
+//@   modifies FaultIdx, FaultById
+//@   ensures [C19.report.auth] err == nil ==> has(Node, msg.Creator) && strcontains(param(KeyFishmenInfo), msg.Creator)
+//@   at SetFault assert [C19.report.valid] fault.Provider == msg.Provider && has(Metadata, fault.DataId) && has(Order, fault.OrderId) && Order[fault.OrderId].DataId == fault.DataId
+//@       && contains(Order[fault.OrderId].Shards, fault.ShardId) && has(Shard, fault.ShardId) && Shard[fault.ShardId].Sp == fault.Provider
+//@       && u64(Shard[fault.ShardId].CreatedAt + Shard[fault.ShardId].Duration) > H
+//@   at SetFault assert [C19.report.reporter] fault.Status == 1 ==> fault.Reporter == msg.Creator
+//@   loop L1 invariant -1 <= rangeindex
+//@   loop L2 invariant -1 <= rangeindex && rangeindex < len(orderMeta.Shards)
+//@   loop L3 invariant -1 <= rangeindex
+//@   loop L4 invariant -1 <= rangeindex
+
+// RecoverFaults: a provider declares recovery of its own faults, fishmen confirm it; only fault records, fishing rewards and the
+// faulty provider's own pledge record can change - no balance, order, shard or other provider's pledge
+//@ func (msgServer) RecoverFaults(goCtx, msg) (resp, err)
+//@   requires msg != nil
+//@   requires forall i int :: 0 <= i && i < len(msg.Faults) ==> msg.Faults[i] != nil
+//@   modifies FaultIdx, FaultById, FishingReward, Pledge[msg.Provider]
+//@   ensures [C19.recover.auth] err == nil ==> has(Node, msg.Creator) && (msg.Creator == msg.Provider || strcontains(param(KeyFishmenInfo), msg.Creator))
+//@   at SetFault assert [C19.recover.own] fault.Provider == msg.Provider && (fault.Status == 3 && msg.Creator == msg.Provider ==> fault.Provider == msg.Creator)
+//@   at SetPledge assert [C19.recover.penalty] pledge.Creator == msg.Provider && has(Pledge, msg.Provider)
+//@       && pledge.TotalStorage == Pledge[msg.Provider].TotalStorage && pledge.UsedStorage == Pledge[msg.Provider].UsedStorage
+//@       && pledge.TotalShardPledged == Pledge[msg.Provider].TotalShardPledged
+//@       && pledge.TotalStoragePledged.Amount <= Pledge[msg.Provider].TotalStoragePledged.Amount && (Pledge[msg.Provider].TotalStoragePledged.Amount >= 0 ==> pledge.TotalStoragePledged.Amount >= 0)
+//@       && pledge.Reward.Amount <= max(Pledge[msg.Provider].Reward.Amount, 0) && (Pledge[msg.Provider].Reward.Amount >= 0 ==> pledge.Reward.Amount >= 0)
+//@       && pledge.RewardDebt.Amount <= max(Pledge[msg.Provider].RewardDebt.Amount, 0) && (Pledge[msg.Provider].RewardDebt.Amount >= 0 ==> pledge.RewardDebt.Amount >= 0)
+//@   loop L1 invariant -1 <= rangeindex
+//@   loop L1 invariant forall k bytes :: k != keyof(Pledge, msg0.Provider) ==> rawsel(Pledge, k) == old(rawsel(Pledge, k))
+//@   loop L2 invariant -1 <= rangeindex && rangeindex < len(orderMeta.Shards)
+//@   loop L3 invariant -1 <= rangeindex
+//@   loop L4 invariant -1 <= rangeindex
+//@   loop L5 invariant -1 <= rangeindex
